@@ -199,6 +199,35 @@ def search(ctx, deep):
                                    'the finite-difference fallback approximates dC/dv for each row, in row order (5e-3), and equals '
                                    'the row evaluated alone', 'Bivariate.partial_derivative:fallback-not-rowwise-dC/dv')
                     break
+    # parameter forms: an integer-typed theta (Python int, np.int64, np.int32, 0-d array) is the same parameter as the
+    # equal float
+    for fam in B.FAMS:
+        ints = {'clayton': [1, 2, 5], 'gumbel': [1, 2, 3, 5], 'frank': [-3, 1, 4]}[fam]
+        pts_f = np.array([(0.2, 0.7), (0.55, 0.4), (0.9, 0.95), (0.05, 0.3)])
+        for k in ints:
+            forms = {'int': int(k), 'np.int64': np.int64(k), 'np.int32': np.int32(k),
+                     '0-d array': np.array(float(k))}
+            with np.errstate(all='ignore'):
+                ref = {m: np.asarray(getattr(B.make(fam, float(k)), m)(pts_f.copy() if m != 'generator' else np.array([0.2, 0.6, 0.9])),
+                                     dtype=float) for m in ('probability_density', 'partial_derivative', 'log_probability_density')}
+            for name, val in forms.items():
+                checked += 1
+                for m in ('probability_density', 'partial_derivative', 'log_probability_density'):
+                    try:
+                        with np.errstate(all='ignore'):
+                            got = np.asarray(getattr(B.make(fam, val), m)(pts_f.copy() if m != 'generator' else np.array([0.2, 0.6, 0.9])),
+                                             dtype=float)
+                    except Exception as e:  # noqa
+                        got = None
+                        obs = f'{vc.exc_kind(e)}: {e}'[:160]
+                    tol = 1e-6 if name == 'np.float32' else 1e-12
+                    if got is None or got.shape != ref[m].shape or not np.all(np.abs(got - ref[m]) <= tol * np.maximum(1.0, np.abs(ref[m]))):
+                        found += 1
+                        ctx.fail_input(f'{fam}.{m}', {'theta': float(k), 'theta_given_as': name},
+                                       obs if got is None else {'with_this_form': got.tolist(), 'with_float': ref[m].tolist()},
+                                       'the result depends on the VALUE of theta, not on the numeric type it is stored in',
+                                       f'{fam}.{m}:depends-on-theta-type[{name}]')
+                        break
     # history: one object re-parameterised several times must behave like a fresh object
     for fam in B.FAMS:
         obj = B.cls_of(fam)()
